@@ -33,15 +33,17 @@ ASSUMPTIONS = [
 
 @st.composite
 def cases(draw):
-    b = draw(functional_program(max_ops=12, allow_const_view=False))
+    b = draw(functional_program(max_ops=12, min_ops=3, allow_const_view=False))
     r = b.ref
     tens = [h for h in r.env if r.is_tensor[h] and not r.isint[h]]
     nonconst = [h for h in tens if not r.const[h]]
     pool = nonconst if nonconst and draw(st.integers(0, 9)) > 0 else tens
-    # bias towards late handles
-    i = draw(st.integers(0, len(pool) - 1))
-    j = draw(st.integers(0, len(pool) - 1))
-    L = pool[max(i, j)]
+    # bias towards handles with a deep upstream graph (any handle remains possible)
+    if draw(st.integers(0, 4)) == 0:
+        L = pool[draw(st.integers(0, len(pool) - 1))]
+    else:
+        ranked = sorted(pool, key=lambda h: -len(ancestors(b.prog, h)[0]))
+        L = ranked[draw(st.integers(0, min(2, len(ranked) - 1)))]
     n = len(b.stmts)
     perm = draw(st.lists(st.integers(0, 1000), min_size=n, max_size=n))
     swap = draw(st.lists(st.booleans(), min_size=n, max_size=n))
@@ -180,7 +182,7 @@ def _skeleton(prog):
     return out
 
 
-N = {"quick": 350, "thorough": 6000}
+N = {"quick": 500, "thorough": 8000}
 
 
 def shard_plan(tier):
